@@ -332,7 +332,7 @@ def out_code(r):
 def _sweep_shard(job):
     """job = (shard_seed, alpha, prefix, n, budgets): all words prefix+t under the 4
     configurations x budgets 0..3; returns dict config -> (meta, codes), oracle failures, #runs"""
-    seed, alpha, prefix, n, budgets = job
+    seed, alpha, prefix, n, budgets, forced_seq0 = job
     rng = random.Random(seed)
     out = {}
     fails = {}
@@ -344,6 +344,8 @@ def _sweep_shard(job):
         if kind == 'aardvark' and rng.random() < 0.85:
             slave &= 0xfe
         seq0 = rng.choice([0, 62, 63, rng.randrange(64)])
+        if forced_seq0 is not None:
+            seq0 = forced_seq0
         cmd = rng.choice([1, 0x33, 0x35, rng.randrange(256)])
         if cmd == 0x34:
             cmd = 0x36
@@ -392,12 +394,12 @@ def _sweep_shard(job):
     return job, out, fails, runs
 
 
-def sweep_jobs(rng, alpha, maxlen, budgets=(0, 1, 2, 3), tail=3):
+def sweep_jobs(rng, alpha, maxlen, budgets=(0, 1, 2, 3), tail=3, seq0=None):
     jobs = []
     for L in range(0, maxlen + 1):
         n = min(L, tail)
         for prefix in itertools.product(alpha, repeat=L - n):
-            jobs.append((rng.randrange(1 << 30), tuple(alpha), tuple(prefix), n, tuple(budgets)))
+            jobs.append((rng.randrange(1 << 30), tuple(alpha), tuple(prefix), n, tuple(budgets), seq0))
     return jobs
 
 
@@ -444,6 +446,10 @@ def run(ctx):
     jobs = sweep_jobs(rng, alpha10, 5 if q else 6)
     # extended alphabet (OS error, bridged reply, failing bridge response), shorter words
     jobs += sweep_jobs(rng, list(range(NSYM)), 3 if q else 4, tail=2)
+    # the wrap of the 6-bit sequence counter, deliberately: the request gets number 63, 0 or 1 (the stale
+    # letter then carries 62, 63, 0) - every letter, every pair of letters, every kind, budgets 0..3
+    for s0 in (62, 63, 0):
+        jobs += sweep_jobs(rng, list(range(NSYM)), 2, tail=2, seq0=s0)
     if not q:
         # length 7 over the sub-alphabet that distinguishes the loop's behaviours, full budget range
         jobs += [j for j in sweep_jobs(rng, [0, 1, 5, 7, 8, 9], 7) if len(j[2]) + j[3] == 7]
@@ -452,7 +458,7 @@ def run(ctx):
     with multiprocessing.get_context('fork').Pool(C.NCPU) as pool:
         for job, out, f, runs in pool.imap_unordered(_sweep_shard, jobs, chunksize=1):
             nruns += runs
-            seed, alpha, prefix, n, budgets = job
+            seed, alpha, prefix, n, budgets, _forced = job
             for ci, ((kind, ign), (m, codes)) in enumerate(out.items()):
                 D.add(('sweep', kind, ign, alpha, prefix, n), True, 'sweep-%s-len%d' % (kind, len(prefix) + n))
                 if len(prefix) + n >= (5 if q else 6) and (sum(prefix) + ci) % 2:
@@ -557,8 +563,8 @@ def run(ctx):
 
     res.extra['t_seq_py'] = _t.time()
     # ---- evaluate the model in Coq
-    failing, errors = C.coq_cases('C04', 'Model.Ipmb Model.Bridge Model.RxLoop Corr.C04', terms)
-    sf, serr = C.coq_cases('C04sweep', 'Model.Ipmb Model.Bridge Model.RxLoop Corr.C04', sweep_terms,
+    failing, errors = C.coq_cases('C04_%d' % os.getpid(), 'Model.Ipmb Model.Bridge Model.RxLoop Corr.C04', terms)
+    sf, serr = C.coq_cases('C04sweep_%d' % os.getpid(), 'Model.Ipmb Model.Bridge Model.RxLoop Corr.C04', sweep_terms,
                            shard=max(4, len(sweep_terms) // (4 * C.NCPU) + 1), timeout=1500)
     res.extra['t_coq'] = _t.time()
     res.mismatches = [{'case': meta[i], 'term': terms[i][:800]} for i in failing[:30]]
@@ -576,7 +582,7 @@ def run(ctx):
                     C.c_hex(bytes.fromhex(m['p'])), C.c_hex(bytes.fromhex(m['tx'])), nl(w), nl(sm['codes'][4 * wi:4 * wi + 4])))
                 wmeta.append({'kind': sm['kind'], 'ign': sm['ign'], 'word': [SYM_NAMES[k] for k in w], 'request': m,
                               'impl_codes(mr=0..3: outcome*4096+nsent*256+qlen*16+unread)': sm['codes'][4 * wi:4 * wi + 4]})
-        wf, werr = C.coq_cases('C04words', 'Model.Ipmb Model.Bridge Model.RxLoop Corr.C04', wterms)
+        wf, werr = C.coq_cases('C04words_%d' % os.getpid(), 'Model.Ipmb Model.Bridge Model.RxLoop Corr.C04', wterms)
         res.mismatches += [{'case': wmeta[i], 'term': wterms[i][:600]} for i in wf[:30]]
         if not wf:
             res.mismatches += [{'case': 'sweep shard %d' % i, 'term': sweep_terms[i][:300]} for i in sf[:5]]
@@ -587,7 +593,8 @@ def run(ctx):
     res.rule = ('exhaustive: every ordering of length 0..%d over the 10-symbol alphabet {match, stale seq, other cmd, other '
                 'netfn, other LUN, bad header checksum, bad payload checksum, bridge ack, short frame, time-out} and of '
                 'length 0..%d over 13 symbols (+ OS error, bridged reply, failing bridge response)%s, each under retry '
-                'budgets 0..3 on Rmcp (rmcp_ignore_rq_seq off/on), IpmbDev, Aardvark (one random request per shard of 1000 '
+                'budgets 0..3 on Rmcp (rmcp_ignore_rq_seq off/on), IpmbDev, Aardvark; plus all words of length 0..2 over the 20 '
+                'symbols with the sequence counter forced to 62, 63 and 0 (wrap) (one random request per shard of 1000 '
                 'words; the model is compared on all orderings up to length 4 (thorough 5) and on every second (shard, '
                 'configuration) pair of the longer ones, the property oracle runs on all); then %d random sequences of 1..4 requests on one interface object (late replies to earlier '
                 'requests, pre-filled queue, bridged targets, rmcp_ignore_sdu_length). distinct_nontrivial counts each '
